@@ -492,6 +492,8 @@ type SeqCase struct {
 	Accept string   `json:"accept"` // Accept header
 	Body   bool     `json:"body"`
 	Steps  []string `json:"steps"` // R C F A B X(resetAuth)
+	// Escaped: the request path carries percent-escapes
+	Escaped bool `json:"escapedPath,omitempty"`
 }
 
 type countingBody struct {
@@ -517,6 +519,10 @@ func (c *countingBody) Close() error { c.closed++; return nil }
 
 func runSequence(m *mon.M, s *server, sc *SeqCase, cfg *RunCfg) {
 	token := "seq"
+	esc := ""
+	if sc.Escaped {
+		esc = "%20%C3%A9" // the path needs escaping: memoisation must not depend on how the path is spelled
+	}
 	v := func(x string) string { return token + "~" + x }
 	var req *http.Request
 	var cb *countingBody
@@ -525,17 +531,17 @@ func runSequence(m *mon.M, s *server, sc *SeqCase, cfg *RunCfg) {
 	switch sc.Op {
 	case "postA":
 		method = "POST"
-		target = "/api/a/" + v("id") + "?tok=" + v("tk")
+		target = "/api/a/" + v("id") + esc + "?tok=" + v("tk")
 		if sc.Cred == "bad" {
-			target = "/api/a/" + v("id") + "?tok=" + v("tk") + "~bad"
+			target = "/api/a/" + v("id") + esc + "?tok=" + v("tk") + "~bad"
 		}
 		if sc.Cred == "none" {
-			target = "/api/a/" + v("id")
+			target = "/api/a/" + v("id") + esc
 		}
 	case "getB":
-		target = "/api/b/" + v("x") + "?q=" + v("q")
+		target = "/api/b/" + v("x") + esc + "?q=" + v("q")
 	default:
-		target = "/api/a/" + v("id") + "?q=" + v("q")
+		target = "/api/a/" + v("id") + esc + "?q=" + v("q")
 	}
 	if sc.Body {
 		cb = &countingBody{r: strings.NewReader(`{"t":"seq"}`)}
@@ -717,7 +723,7 @@ func runSequence(m *mon.M, s *server, sc *SeqCase, cfg *RunCfg) {
 		seen[st] = true
 	}
 	if rep {
-		m.NT(fmt.Sprintf("seq|%s|%s|%s|%s|%v|%s", sc.Op, sc.Cred, sc.CT, sc.Accept, sc.Body, strings.Join(sc.Steps, "")))
+		m.NT(fmt.Sprintf("seq|%s|%s|%s|%s|%v|%v|%s", sc.Op, sc.Cred, sc.CT, sc.Accept, sc.Body, sc.Escaped, strings.Join(sc.Steps, "")))
 	}
 	m.Class("sequence")
 	if m.WantSample() {
@@ -733,6 +739,7 @@ func genSeq(r *rand.Rand) *SeqCase {
 		Accept: []string{"application/json", "text/plain", "", "image/png", "text/plain;q=0.5, application/json;q=0.4"}[r.Intn(5)],
 	}
 	sc.Body = sc.Op == "postA" && r.Intn(4) != 0
+	sc.Escaped = r.Intn(3) == 0
 	n := 2 + r.Intn(11)
 	steps := "RCFABX"
 	sc.Steps = append(sc.Steps, "R")
